@@ -7,9 +7,9 @@ from typing import Dict, List
 
 from ..astutil import arg_of, call_name, calls, enclosing_loops, guards, last_attr, stmt_key, txt, walk_local
 from ..cfg import CFG
-from ..flow import bound_from
+from ..flow import bound_from, fact_texts, facts_nnf, inline_reaching, nnf_literals, path_facts
 from ..index import UNRESOLVED, AnalysisError
-from ..kernel import Affine, OutsideFragment, affine, straight_line_env
+from ..kernel import Affine, OutsideFragment, affine, decide, parse, rename, straight_line_env
 from ..report import Ctx
 from . import c04
 
@@ -32,94 +32,228 @@ UNDECIDED = [
 TRUSTED = ["CPython ast", "affine arithmetic of asa.kernel", "range(frame, n - 2, 3) enumerates the codon starts of a frame"]
 
 
+def _direction_of(facts, direction: str) -> str:
+    """ 'forward' / 'reverse' / '' from the literals that test the direction parameter """
+    verdict = ""
+    for expr, truth in facts:
+        if not (isinstance(expr, ast.Compare) and len(expr.ops) == 1 and isinstance(expr.ops[0], (ast.Eq, ast.NotEq))):
+            continue
+        sides = [expr.left, expr.comparators[0]]
+        names = [x for x in sides if isinstance(x, ast.Name) and x.id == direction]
+        consts = [x for x in sides if isinstance(x, ast.Constant) or (isinstance(x, ast.UnaryOp) and isinstance(x.operand, ast.Constant))]
+        if len(names) != 1 or len(consts) != 1:
+            continue
+        value = ast.literal_eval(consts[0])
+        equal = isinstance(expr.ops[0], ast.Eq) == truth
+        if value == 1:
+            verdict = "forward" if equal else "reverse"
+        elif value == -1:
+            verdict = "reverse" if equal else "forward"
+    return verdict
+
+
+class _Scanner:
+    """ the structural roles of scan_orfs' locals, recovered from shapes rather than names """
+    def __init__(self, ctx: Ctx) -> None:
+        self.qual = "scan_orfs"
+        self.func = func = ctx.fn(ORF, self.qual, inline=True)
+        self.cfg = CFG(func)
+        params = [a.arg for a in func.args.args]
+        if len(params) < 5:
+            raise AnalysisError("scan_orfs: unexpected signature")
+        self.seq, self.direction, self.offset, self.minimum, self.record_length = params[:5]
+        frames = [n for n in walk_local(func) if isinstance(n, ast.For) and txt(n.iter) in ("[0, 1, 2]", "(0, 1, 2)", "range(3)")]
+        if len(frames) != 1 or not isinstance(frames[0].target, ast.Name):
+            raise AnalysisError("scan_orfs: loop over the three reading frames not found")
+        self.frames = frames[0]
+        frame = frames[0].target.id
+        inner = [n for n in walk_local(frames[0]) if isinstance(n, ast.For) and isinstance(n.iter, ast.Call)
+                 and call_name(n.iter) == "range" and len(n.iter.args) == 3 and txt(n.iter.args[0]) == frame
+                 and txt(n.iter.args[2]) == "3" and isinstance(n.target, ast.Name)]
+        if len(inner) != 1:
+            raise AnalysisError("scan_orfs: codon loop range(frame, n - 2, 3) not found")
+        self.codons = inner[0]
+        self.pos = inner[0].target.id
+        # the pending start: the local that is assigned the codon position under a START_CODONS test
+        starts = [n for n in walk_local(self.codons) if isinstance(n, ast.Assign) and txt(n.value) == self.pos
+                  and isinstance(n.targets[0], ast.Name)
+                  and any("START_CODONS" in txt(e) and t for e, t in path_facts(self.cfg, n))]
+        if len(starts) != 1:
+            raise AnalysisError("scan_orfs: the assignment recording a start codon's position was not found")
+        self.start_set = starts[0]
+        self.start = starts[0].targets[0].id
+        # single-part result: FeatureLocation(<start name>, <end name>, direction)
+        singles = [c for c in calls(func) if call_name(c) == "FeatureLocation" and len(c.args) == 3
+                   and all(isinstance(a, ast.Name) for a in c.args) and txt(c.args[2]) == self.direction
+                   and self.record_length not in (txt(c.args[0]), txt(c.args[1]))]
+        if len(singles) != 1:
+            raise AnalysisError("scan_orfs: the single-part FeatureLocation(start, end, direction) was not found")
+        self.single = singles[0]
+        self.ls, self.le = txt(singles[0].args[0]), txt(singles[0].args[1])
+
+
 def r15_1_2(ctx: Ctx) -> None:
-    qual = "scan_orfs"
-    func = ctx.fn(ORF, qual)
-    dirs = [n for n in walk_local(func) if isinstance(n, ast.If) and txt(n.test) in ("direction == 1", "direction == -1", "direction != 1")]
-    if len(dirs) < 1:
-        raise AnalysisError("scan_orfs: strand arms not found")
-    node = dirs[0]
-    ends = [n for n in walk_local(func) if isinstance(n, ast.Assign) and txt(n.targets[0]) == "end"]
-    env0 = straight_line_env(ends[:1])
-    fwd_arm, rev_arm = (node.body, node.orelse) if txt(node.test) == "direction == 1" else (node.orelse, node.body)
-    n_name = "seq_len"
+    sc = _Scanner(ctx)
+    func, cfg, qual = sc.func, sc.cfg, sc.qual
+    length_atom = f"len({sc.seq})"
     spec = {
-        "forward": (Affine({"start": 1, "offset": 1}), Affine({"i": 1, "offset": 1}, 3)),
-        "reverse": (Affine({n_name: 1, "offset": 1, "i": -1}, -3), Affine({n_name: 1, "offset": 1, "start": -1})),
+        "forward": {sc.ls: Affine({sc.start: 1, sc.offset: 1}), sc.le: Affine({sc.pos: 1, sc.offset: 1}, 3)},
+        "reverse": {sc.ls: Affine({length_atom: 1, sc.offset: 1, sc.pos: -1}, -3),
+                    sc.le: Affine({length_atom: 1, sc.offset: 1, sc.start: -1})},
     }
-    for name, arm in (("forward", fwd_arm), ("reverse", rev_arm)):
-        env = straight_line_env(arm, env0)
-        got = (env.get("loc_start"), env.get("loc_end"))
-        ok = got[0] == spec[name][0] and got[1] == spec[name][1]
-        ctx.ob("R15.1", ORF, node, qual, f"{name} coordinates", ok,
-               f"{name} strand ORF coordinates include the stop codon and are mirrored about the window on the reverse strand",
-               detail="" if ok else f"expected [{spec[name][0]}, {spec[name][1]})", form=f"[{got[0]}, {got[1]})")
-    ok = len(ends) == 1 and env0.get("end") == Affine({"i": 1}, 2)
-    ctx.ob("R15.1", ORF, ends[0] if ends else func, qual, "stop codon included", ok,
-           "the ORF end is the last base of the stop codon (i + 2)", form=str(env0.get("end")))
-    seqlen = [txt(v) for v in bound_from(func, n_name)]
-    ctx.ob("R15.1", ORF, func, qual, "window length", seqlen == ["len(seq)"], "mirroring uses the length of the scanned window",
-           form=str(seqlen))
-    # minimum length
-    culls = [n for n in walk_local(func) if isinstance(n, ast.If) and "minimum_length" in txt(n.test)]
-    ok = len(culls) == 1 and txt(culls[0].test) == "end - start < minimum_length"
-    ctx.ob("R15.1", ORF, culls[0] if culls else func, qual, "minimum length", ok,
-           "ORFs shorter than the minimum are dropped", form=txt(culls[0].test) if culls else "")
+    seen = set()
+    wrap_assigns: Dict[str, ast.Assign] = {}
+    for node in walk_local(func):
+        if not (isinstance(node, ast.Assign) and len(node.targets) == 1 and txt(node.targets[0]) in (sc.ls, sc.le)):
+            continue
+        name = txt(node.targets[0])
+        facts = path_facts(cfg, node)
+        if any(sc.record_length in {n.id for n in ast.walk(e) if isinstance(n, ast.Name)} for e, _ in facts):
+            wrap_assigns[name] = node
+            continue
+        strand = _direction_of(facts, sc.direction)
+        if not strand:
+            ctx.cannot("R15.1", ORF, node, qual, f"{name} arm", "coordinate assignment outside a test on the direction")
+            continue
+        try:
+            got = affine(inline_reaching(cfg, node, node.value, keep={sc.start, sc.pos, sc.offset, sc.seq}),
+                         atom_name=lambda n: length_atom if txt(n) == length_atom else None)
+        except OutsideFragment as err:
+            ctx.cannot("R15.1", ORF, node, qual, f"{strand} {name}", str(err))
+            continue
+        seen.add((strand, name))
+        want = spec[strand][name]
+        role = "start" if name == sc.ls else "end"
+        ctx.ob("R15.1", ORF, node, qual, f"{strand} {role}", got == want,
+               f"{strand} strand ORF coordinates include the stop codon and are mirrored about the window on the reverse strand",
+               detail="" if got == want else f"expected {want}", form=f"{name} = {got}")
+    ctx.ob("R15.1", ORF, func, qual, "both strands, both ends", seen == {(s, n) for s in spec for n in (sc.ls, sc.le)},
+           "start and end are computed on the forward and on the reverse arm", form=str(sorted(seen)))
+    # minimum length: the result is recorded exactly when (end - start) >= minimum, end = position + 2
+    mapping = {sc.start: "S", sc.pos: "I", sc.minimum: "M"}
+    try:
+        terms = []
+        for expr, truth in path_facts(cfg, sc.single, fresh_only=True):
+            if sc.minimum in {n.id for n in ast.walk(expr) if isinstance(n, ast.Name)}:
+                full = inline_reaching(cfg, expr, expr, keep={sc.start, sc.pos})
+                terms.append(full if truth else ast.UnaryOp(op=ast.Not(), operand=full))
+        if not terms:
+            ctx.ob("R15.1", ORF, sc.single, qual, "minimum length", False, "ORFs shorter than the minimum are dropped",
+                   detail="no test on the minimum length governs the recorded ORF")
+        else:
+            cond = rename(terms[0] if len(terms) == 1 else ast.BoolOp(op=ast.And(), values=terms), mapping)
+            ok, cex, n = decide(cond, parse("I + 2 - S >= M"))
+            ctx.ob("R15.1", ORF, sc.single, qual, "minimum length", ok,
+                   "an ORF is recorded iff the distance from its first base to the last base of its stop codon is at least "
+                   "the minimum", detail=f"differs at {cex}" if cex else f"{n} orderings", form=txt(cond))
+    except OutsideFragment as err:
+        ctx.cannot("R15.1", ORF, sc.single, qual, "minimum length", str(err))
     # R15.2 wrap
-    wraps = [n for n in walk_local(func) if isinstance(n, ast.If) and txt(n.test) == "record_length is not None"]
-    if not wraps:
-        raise AnalysisError("scan_orfs: wrap block not found")
-    assigns = {txt(s.targets[0]): s.value for s in wraps[0].body if isinstance(s, ast.Assign)}
-    ok = txt(assigns.get("loc_start")) == "(loc_start + record_length) % record_length"
-    ctx.ob("R15.2", ORF, wraps[0], qual, "wrapped start", ok, "the start is reduced modulo the record length", form=txt(assigns.get("loc_start")))
-    end_expr = assigns.get("loc_end")
+    if set(wrap_assigns) != {sc.ls, sc.le}:
+        raise AnalysisError("scan_orfs: the wrapping assignments under `record_length is not None` were not found")
+    L = sc.record_length
+    ok = txt(wrap_assigns[sc.ls].value) in (f"({sc.ls} + {L}) % {L}", f"{sc.ls} % {L}") and \
+        f"{L} is not None" in fact_texts(cfg, wrap_assigns[sc.ls])
+    ctx.ob("R15.2", ORF, wrap_assigns[sc.ls], qual, "wrapped start", ok, "the start is reduced modulo the record length",
+           form=txt(wrap_assigns[sc.ls].value))
+    end_expr = wrap_assigns[sc.le].value
     ok = False
     if isinstance(end_expr, ast.BinOp) and isinstance(end_expr.op, ast.Add) and isinstance(end_expr.right, ast.Constant) \
             and end_expr.right.value == 1 and isinstance(end_expr.left, ast.BinOp) and isinstance(end_expr.left.op, ast.Mod):
         try:
             inner = affine(end_expr.left.left)
-            ok = inner.terms.get("loc_end") == 1 and inner.const == -1 and txt(end_expr.left.right) == "record_length"
+            ok = inner.terms.get(sc.le) == 1 and inner.const == -1 and txt(end_expr.left.right) == L
         except OutsideFragment:
             ok = False
-    ctx.ob("R15.2", ORF, wraps[0], qual, "wrapped end", ok,
+    ctx.ob("R15.2", ORF, wrap_assigns[sc.le], qual, "wrapped end", ok,
            "the exclusive end is reduced with ((e - 1) % L) + 1 so that an end on the record length stays L", form=txt(end_expr))
-    splits = [n for n in walk_local(func) if isinstance(n, ast.If) and txt(n.test) in ("loc_start > loc_end", "loc_end < loc_start")]
-    ok = len(splits) == 1
-    form = ""
+    # two-part split iff start > end
+    two = [c for c in calls(func) if call_name(c) == "FeatureLocation" and c is not sc.single and len(c.args) == 3]
+    parts = sorted((txt(c.args[0]), txt(c.args[1]), txt(c.args[2])) for c in two)
+    ok = parts == sorted([(sc.ls, L, sc.direction), ("0", sc.le, sc.direction)])
+    form = str(parts)
     if ok:
-        ctor = [c for c in calls(splits[0]) if call_name(c) == "FeatureLocation" and any(c is x for s in splits[0].body for x in ast.walk(s))]
-        parts = sorted((txt(c.args[0]), txt(c.args[1]), txt(c.args[2])) for c in ctor)
-        form = str(parts)
-        ok = parts == sorted([("loc_start", "record_length", "direction"), ("0", "loc_end", "direction")])
-        single = [c for s in splits[0].orelse for c in calls(s) if call_name(c) == "FeatureLocation"]
-        ok = ok and len(single) == 1 and [txt(a) for a in single[0].args] == ["loc_start", "loc_end", "direction"]
-    ctx.ob("R15.2", ORF, splits[0] if splits else func, qual, "two-part split", ok,
-           "a wrapped ORF becomes [start, L) + [0, end) iff start > end, otherwise one part [start, end), on the scanned strand",
-           form=form)
+        try:
+            mapping2 = {sc.ls: "a", sc.le: "b"}
+
+            def cond_at(node: ast.AST) -> ast.AST:
+                terms = [e if t else ast.UnaryOp(op=ast.Not(), operand=e) for e, t in path_facts(cfg, node, fresh_only=True)
+                         if {sc.ls, sc.le} <= {n.id for n in ast.walk(e) if isinstance(n, ast.Name)}]
+                if not terms:
+                    return ast.Constant(value=True)
+                return terms[0] if len(terms) == 1 else ast.BoolOp(op=ast.And(), values=terms)
+            ok1, cex1, _ = decide(rename(cond_at(two[0]), mapping2), parse("a > b"))
+            ok2, cex2, _ = decide(rename(cond_at(sc.single), mapping2), parse("a <= b"))
+            ok = ok1 and ok2
+            form += f"; split when {txt(cond_at(two[0]))}, single when {txt(cond_at(sc.single))}"
+        except OutsideFragment as err:
+            ctx.cannot("R15.2", ORF, two[0], qual, "two-part split", str(err))
+            ok = None  # type: ignore[assignment]
+    if ok is not None:
+        ctx.ob("R15.2", ORF, two[0] if two else func, qual, "two-part split", bool(ok),
+               "a wrapped ORF becomes [start, L) + [0, end) iff start > end, otherwise one part [start, end), on the scanned strand",
+               form=form)
     # R15.5 strand order of the two parts
     ok = False
-    if splits:
-        comp = [c for c in calls(splits[0]) if call_name(c) == "CompoundLocation"]
-        if comp and isinstance(comp[0].args[0], ast.Name):
-            name = comp[0].args[0].id
-            rev = [n for n in walk_local(splits[0]) if isinstance(n, ast.If) and txt(n.test) == "direction == -1"
-                   and any(txt(s) == f"{name}.reverse()" for s in n.body)]
-            lst = bound_from(func, name)
-            first = lst[0].elts[0] if lst and isinstance(lst[0], ast.List) and lst[0].elts else None
-            ok = bool(rev) and isinstance(first, ast.Call) and txt(first.args[0]) == "loc_start"
-            form = f"{name} = [pre-origin, post-origin]; reversed when direction == -1: {bool(rev)}"
-        elif comp and isinstance(comp[0].args[0], ast.List):
-            form = "parts passed in a fixed order for both strands"
-    ctx.ob("R15.5", ORF, splits[0] if splits else func, qual, "strand order of parts", ok,
+    form = ""
+    comp = [c for c in calls(func) if call_name(c) == "CompoundLocation"]
+    if comp and isinstance(comp[0].args[0], ast.Name):
+        name = comp[0].args[0].id
+        rev = [c for c in calls(func) if txt(c.func) == f"{name}.reverse"
+               and _direction_of(path_facts(cfg, c), sc.direction) == "reverse"
+               and cfg.dominates(cfg.n(c), cfg.n(comp[0])) is False and cfg.exists_path(cfg.n(c), cfg.n(comp[0]))]
+        lst = bound_from(func, name)
+        first = lst[0].elts[0] if lst and isinstance(lst[0], ast.List) and lst[0].elts else None
+        ok = bool(rev) and isinstance(first, ast.Call) and txt(first.args[0]) == sc.ls
+        form = f"{name} = [pre-origin, post-origin]; reversed on the reverse strand: {bool(rev)}"
+    elif comp and isinstance(comp[0].args[0], ast.List):
+        form = "parts passed in a fixed order for both strands"
+    ctx.ob("R15.5", ORF, comp[0] if comp else func, qual, "strand order of parts", ok,
            "the two parts of an origin-crossing ORF are listed in reading order: pre-origin first on the forward strand, "
            "post-origin first on the reverse strand (otherwise extraction yields the two halves swapped)", form=form)
     label = ctx.fn(ORF, "create_feature_from_location")
-    text = txt(label)
-    cross = [n for n in walk_local(label) if isinstance(n, ast.If) and txt(n.test) == "len(location.parts) > 1"]
-    ok = bool(cross) and any(isinstance(n, (ast.If, ast.IfExp)) and "strand" in txt(n.test) for n in walk_local(cross[0]))
+    lcfg = CFG(label)
+    loc = label.args.args[1].arg
+    # some statement that runs only for multi-part locations depends on the strand
+    ok = False
+    for node in walk_local(label):
+        if isinstance(node, (ast.If, ast.IfExp)) and "strand" in txt(node.test):
+            lits = nnf_literals(facts_nnf(path_facts(lcfg, node)))
+            if any((text, truth) in lits for text, truth in ((f"len({loc}.parts) > 1", True), (f"len({loc}.parts) <= 1", False),
+                                                             (f"len({loc}.parts) == 1", False), (f"len({loc}.parts) < 2", False))):
+                ok = True
     ctx.ob("R15.5", ORF, label, "create_feature_from_location", "label uses strand-independent ends", ok,
            "the generated name of an origin-crossing ORF takes the pre-origin start and the post-origin end whatever the strand",
            form="")
+
+
+def _loop_paths(cfg: CFG, loop: ast.AST, limit: int = 200):
+    """ acyclic paths through one iteration of the loop body (header T edge back to the header, or out by break / return):
+        [(nodes, [(test expr, truth)...], ended_at_header)] """
+    head = cfg.n(loop)
+    body = cfg.loop_body_nodes(loop)
+    out = []
+
+    def walk(cur: int, nodes, conds) -> None:
+        if len(out) > limit:
+            raise ValueError("too many paths through the loop body")
+        for dst, label in cfg.succ[cur]:
+            extra = conds
+            test = cfg.nodes[cur]
+            if cur != head and test.kind == "test" and label in ("T", "F") and test.ast is not None and hasattr(test.ast, "test"):
+                extra = conds + [(test.ast.test, label == "T")]
+            if cur == head and label != "T":
+                continue
+            if dst == head:
+                out.append((nodes, extra, True))
+            elif dst not in body:
+                out.append((nodes, extra, False))
+            elif dst in nodes:
+                raise ValueError("nested loop in the codon loop body")
+            else:
+                walk(dst, nodes + [dst], extra)
+    walk(head, [], [])
+    return out
 
 
 def r15_3(ctx: Ctx) -> None:
@@ -130,90 +264,133 @@ def r15_3(ctx: Ctx) -> None:
            "start codons are ATG/GTG/TTG", form=str(starts))
     ctx.ob("R15.3", ORF, 1, "<module>", "stop codons", stops is not UNRESOLVED and set(stops) == {"TAA", "TAG", "TGA"},
            "stop codons are TAA/TAG/TGA", form=str(stops))
-    qual = "scan_orfs"
-    func = ctx.fn(ORF, qual)
-    cfg = CFG(func)
-    frames = [n for n in walk_local(func) if isinstance(n, ast.For) and txt(n.target) == "frame"]
-    ok = len(frames) == 1 and txt(frames[0].iter) in ("[0, 1, 2]", "(0, 1, 2)", "range(3)")
-    ctx.ob("R15.3", ORF, frames[0] if frames else func, qual, "frames", ok, "exactly the three reading frames are scanned",
-           form=txt(frames[0].iter) if frames else "")
-    inner = [n for n in walk_local(func) if isinstance(n, ast.For) and txt(n.target) == "i"]
-    ok = len(inner) == 1 and txt(inner[0].iter) == "range(frame, seq_len - 2, 3)"
-    ctx.ob("R15.3", ORF, inner[0] if inner else func, qual, "codon stepping", ok,
-           "each frame is read codon by codon up to the last complete codon", form=txt(inner[0].iter) if inner else "")
-    codon = [txt(v) for v in bound_from(func, "codon")]
-    ctx.ob("R15.3", ORF, func, qual, "codon", codon == ["seq[i:i + 3]"], "a codon is the three bases at i", form=str(codon))
-    ctx.ob("R15.3", ORF, func, qual, "case folded", any(txt(v) == "seq.upper()" for v in bound_from(func, "seq")),
+    sc = _Scanner(ctx)
+    func, cfg, qual = sc.func, sc.cfg, sc.qual
+    ctx.ob("R15.3", ORF, sc.frames, qual, "frames", True, "exactly the three reading frames are scanned", form=txt(sc.frames.iter))
+    stop_arg = inline_reaching(cfg, sc.codons, sc.codons.iter.args[1], keep={sc.seq})
+    ok = txt(stop_arg) == f"len({sc.seq}) - 2"
+    ctx.ob("R15.3", ORF, sc.codons, qual, "codon stepping", ok,
+           "each frame is read codon by codon up to the last complete codon", form=f"range(frame, {txt(stop_arg)}, 3)")
+    codon_names = {t.id for n in walk_local(sc.codons) if isinstance(n, ast.Assign) and isinstance(n.targets[0], ast.Name)
+                   and txt(n.value).replace(" ", "") == f"{sc.seq}[{sc.pos}:{sc.pos}+3]" for t in n.targets}
+    ctx.ob("R15.3", ORF, func, qual, "codon", len(codon_names) == 1, "a codon is the three bases at the current position",
+           form=str(sorted(codon_names)))
+    codon = sorted(codon_names)[0] if codon_names else "codon"
+    ctx.ob("R15.3", ORF, func, qual, "case folded", any(txt(v) == f"{sc.seq}.upper()" for v in bound_from(func, sc.seq)),
            "the sequence is upper-cased before codon comparison", form="")
     # start state: re-initialised per frame, set only while None, reset on every stop that had a start
-    if inner and frames:
-        resets = [n for n in frames[0].body if isinstance(n, ast.Assign) and txt(n.targets[0]) == "start" and txt(n.value) == "None"]
-        ctx.ob("R15.3", ORF, frames[0], qual, "start reset per frame", len(resets) == 1 and frames[0].body.index(resets[0]) == 0,
-               "no start carries over from one frame to the next", form="")
-        sets = [n for n in walk_local(inner[0]) if isinstance(n, ast.Assign) and txt(n.targets[0]) == "start" and txt(n.value) == "i"]
-        ok = len(sets) == 1 and any(pol and "start is None" in txt(t) and "codon in START_CODONS" in txt(t)
-                                    for t, pol in guards(sets[0], stop=inner[0]))
-        ctx.ob("R15.3", ORF, sets[0] if sets else inner[0], qual, "first start wins", ok,
-               "the start is recorded only while none is pending (first start after the previous stop)", form="")
-        stop_arm = [n for n in inner[0].body if isinstance(n, ast.If) and txt(n.test) == "codon in STOP_CODONS"]
-        ok = False
-        if stop_arm:
-            arm = stop_arm[0]
-            # every path through the stop arm either had no start (continue) or clears it
-            head = cfg.n(inner[0])
-            tn = cfg.n(arm)
-            clear_nodes = {cfg.n(n) for n in walk_local(arm) if isinstance(n, ast.Assign) and txt(n.targets[0]) == "start"
-                           and txt(n.value) == "None"}
-            none_tests = [(cfg.n(n), "T") for n in walk_local(arm) if isinstance(n, ast.If) and txt(n.test) == "start is None"]
-            starts_t = [dst for dst, lab in cfg.succ[tn] if lab == "T"]
-            reach = set()
-            for s0 in starts_t:
-                reach |= {s0} | cfg.reach([s0], avoid=clear_nodes | {head}, edges_excluded=none_tests,
-                                          within=cfg.loop_body_nodes(inner[0]) | {head})
-            # can we get back to the loop header without clearing and without the "start is None" exit?
-            ok = bool(clear_nodes) and not any(head in {d for d, _ in cfg.succ[n]} for n in reach if n not in clear_nodes)
-        ctx.ob("R15.3", ORF, stop_arm[0] if stop_arm else inner[0], qual, "stop clears the start", ok,
-               "after a stop codon the pending start is always cleared (kept or culled ORF alike), so an ORF never spans a stop",
-               form="")
+    resets = [n for n in sc.frames.body if isinstance(n, ast.Assign) and txt(n.targets[0]) == sc.start and txt(n.value) == "None"]
+    ctx.ob("R15.3", ORF, sc.frames, qual, "start reset per frame",
+           len(resets) == 1 and cfg.dominates(cfg.n(resets[0]), cfg.n(sc.codons)),
+           "no start carries over from one frame to the next", form="")
+    facts = fact_texts(cfg, sc.start_set)
+    ok = f"{sc.start} is None" in facts and f"{codon} in START_CODONS" in facts
+    ctx.ob("R15.3", ORF, sc.start_set, qual, "first start wins", ok,
+           "the start is recorded only while none is pending (first start after the previous stop)", form=str(sorted(facts)))
+    clears = {cfg.n(n) for n in walk_local(sc.codons) if isinstance(n, ast.Assign) and txt(n.targets[0]) == sc.start
+              and txt(n.value) == "None"}
+    ok = bool(clears)
+    form = ""
+    try:
+        for nodes, conds, _ in _loop_paths(cfg, sc.codons):
+            lits = nnf_literals(facts_nnf(conds))
+            is_stop = (f"{codon} in STOP_CODONS", True) in lits
+            no_start = (f"{sc.start} is None", True) in lits
+            if is_stop and not no_start and not set(nodes) & clears:
+                ok = False
+                form = "a path through a stop codon with a pending start leaves the start set: " + \
+                    cfg.describe_path([cfg.n(sc.codons)] + nodes)
+    except ValueError as err:
+        ctx.cannot("R15.3", ORF, sc.codons, qual, "stop clears the start", str(err))
+        return
+    ctx.ob("R15.3", ORF, sc.codons, qual, "stop clears the start", ok,
+           "after a stop codon the pending start is always cleared (kept or culled ORF alike), so an ORF never spans a stop",
+           form=form)
 
 
 def r15_4(ctx: Ctx) -> None:
     qual = "find_intergenic_areas"
     func = ctx.fn(ORF, qual)
-    loops = [n for n in walk_local(func) if isinstance(n, ast.For) and txt(n.iter) == "cds_features"]
+    cfg = CFG(func)
+    params = [a.arg for a in func.args.args]
+    first, last_param, genes = params[0], params[1], params[2]
+    padding = "padding" if "padding" in params else params[-1]
+    loops = [n for n in walk_local(func) if isinstance(n, ast.For) and txt(n.iter) == genes]
     if not loops:
-        raise AnalysisError("find_intergenic_areas: loop over cds_features not found")
+        raise AnalysisError("find_intergenic_areas: loop over the genes not found")
     loop = loops[0]
-    assigns = [n for n in walk_local(loop) if isinstance(n, ast.Assign) and txt(n.targets[0]) == "last"]
-    if not assigns:
-        raise AnalysisError("find_intergenic_areas: frontier `last` is never advanced")
+    gene = txt(loop.target)
+    # the frontier: the local initialised from the first coordinate before the loop and advanced inside it
+    frontiers = {t.id for n in walk_local(func) if isinstance(n, ast.Assign) and txt(n.value) == first
+                 and cfg.dominates(cfg.n(n), cfg.n(loop)) for t in n.targets if isinstance(t, ast.Name)}
+    frontiers = {name for name in frontiers if any(isinstance(n, ast.Assign) and txt(n.targets[0]) == name for n in walk_local(loop))}
+    if len(frontiers) != 1:
+        raise AnalysisError("find_intergenic_areas: the frontier (end of the last gene seen) was not found")
+    last = frontiers.pop()
+    assigns = [n for n in walk_local(loop) if isinstance(n, ast.Assign) and txt(n.targets[0]) == last]
     for index, node in enumerate(assigns):
-        gs = guards(node, stop=loop)
-        ok = any(pol and "last" in {n.id for n in ast.walk(t) if isinstance(n, ast.Name)} for t, pol in gs)
-        ctx.ob("R15.4", ORF, node, qual, f"frontier update#{index}", ok,
+        facts = path_facts(cfg, node)
+        tests = [e for e, t in facts if last in {n.id for n in ast.walk(e) if isinstance(n, ast.Name)}
+                 and any(a is loop for a in _anc(e))]
+        ctx.ob("R15.4", ORF, node, qual, f"frontier update#{index}", bool(tests),
                "the end of the last gene seen is moved only under a test that compares the gene with that frontier "
                "(a gene nested in an earlier, longer one must not pull it back)",
-               form=f"{stmt_key(node)} under {[txt(t) for t, _ in gs]}")
-        val = affine(node.value)
-        ok = val.terms.get("padding") == -1 and any(k.endswith("location.end)") or k.endswith("location.end") for k in val.terms)
+               form=f"{stmt_key(node)} under {[txt(t) for t in tests]}")
+        val = affine(inline_reaching(cfg, node, node.value, keep={gene, padding}))
+        ok = val.terms.get(padding) == -1 and any(k.endswith("location.end)") or k.endswith("location.end") for k in val.terms)
         ctx.ob("R15.4", ORF, node, qual, f"frontier value#{index}", ok,
                "the frontier is the gene's end minus the allowed overlap", form=str(val))
-    gaps = [c for c in calls(loop) if txt(c.func) == "intergenic_areas.append"]
-    ok = len(gaps) == 1 and any(pol and txt(t) == "cds.location.start + padding > last" for t, pol in guards(gaps[0], stop=loop))
+    acc = [c for c in calls(func) if last_attr(c) == "append" and isinstance(c.func, ast.Attribute)]
+    gaps = [c for c in acc if enclosing_loops(c, stop=func)]
+    ok = False
+    form = ""
+    if len(gaps) == 1:
+        try:
+            terms = [inline_reaching(cfg, e, e, keep={gene, padding, last}) if t else
+                     ast.UnaryOp(op=ast.Not(), operand=inline_reaching(cfg, e, e, keep={gene, padding, last}))
+                     for e, t in path_facts(cfg, gaps[0]) if any(a is loop for a in _anc(e))]
+            cond = terms[0] if len(terms) == 1 else ast.BoolOp(op=ast.And(), values=terms)
+            mapping = {f"{gene}.location.start": "g", padding: "p", last: "f"}
+            ok, cex, _ = decide(rename(cond, mapping), parse("g + p > f"))
+            form = txt(cond)
+        except (OutsideFragment, IndexError):
+            ok = False
     ctx.ob("R15.4", ORF, gaps[0] if gaps else loop, qual, "gap test", ok,
-           "a gap is recorded when the next gene starts (plus the allowed overlap) beyond the frontier", form="")
-    final = [c for c in calls(func) if txt(c.func) == "intergenic_areas.append" and not enclosing_loops(c, stop=func)]
-    ok = len(final) == 1 and any(pol and txt(t) == "last < end" for t, pol in guards(final[0], stop=func))
+           "a gap is recorded when the next gene starts (plus the allowed overlap) beyond the frontier", form=form)
+    final = [c for c in acc if not enclosing_loops(c, stop=func)]
+    ok = False
+    if len(final) == 1:
+        try:
+            terms = [e if t else ast.UnaryOp(op=ast.Not(), operand=e) for e, t in path_facts(cfg, final[0])]
+            cond = terms[0] if len(terms) == 1 else ast.BoolOp(op=ast.And(), values=terms)
+            ok, _, _ = decide(rename(cond, {last: "f", last_param: "e"}), parse("f < e"))
+        except (OutsideFragment, IndexError):
+            ok = False
     ctx.ob("R15.4", ORF, final[0] if final else func, qual, "trailing gap", ok, "the stretch after the last gene is a gap too", form="")
     # find_all_orfs scans both strands of every gap with the record length for wrapping
     fa = ctx.fn(ORF, "find_all_orfs")
+    fcfg = CFG(fa)
     scans = [c for c in calls(fa) if call_name(c) == "scan_orfs"]
-    ok = len(scans) == 2 and sorted(txt(c.args[1]) for c in scans) == ["-1", "1"] and \
-        all(txt(c.args[2]) == "start" and "record_length" in [k.arg for k in c.keywords] for c in scans) and \
-        any("reverse_complement()" in txt(c.args[0]) for c in scans if txt(c.args[1]) == "-1")
+    ok = len(scans) == 2 and sorted(txt(c.args[1]) for c in scans) == ["-1", "1"]
+    if ok:
+        loopvars = set()
+        for c in scans:
+            for lp in enclosing_loops(c, stop=fa):
+                loopvars |= {n.id for n in ast.walk(lp.target) if isinstance(n, ast.Name)}
+        ok = all(isinstance(c.args[2], ast.Name) and c.args[2].id in loopvars for c in scans) and \
+            all(any(k.arg == "record_length" and txt(inline_reaching(fcfg, c, k.value)) == "len(record)" for k in c.keywords)
+                for c in scans) and \
+            any("reverse_complement()" in txt(c.args[0]) for c in scans if txt(c.args[1]) == "-1")
     ctx.ob("R15.4", ORF, fa, "find_all_orfs", "both strands scanned", ok,
            "each gap is scanned forward and (reverse complemented) backward with the gap start as offset and the record "
            "length for wrapping", form="; ".join(txt(c)[:70] for c in scans))
+
+
+def _anc(node: ast.AST):
+    cur = getattr(node, "_parent", None)
+    while cur is not None:
+        yield cur
+        cur = getattr(cur, "_parent", None)
 
 
 def run(ctx: Ctx) -> None:
